@@ -27,13 +27,6 @@ Proof.
   intros [->| ->] K; [|right; reflexivity]. destruct b as [x| |]; cbn [pbind]; [apply K | left; reflexivity | left; reflexivity].
 Qed.
 
-Ltac por :=
-  repeat match goal with
-  | |- pres_or _ ?a ?a => apply pres_or_refl
-  | |- pres_or _ (pbind _ _) (pbind _ _) => apply pres_or_bind; [|intros ?]
-  | |- pres_or _ (match ?x with _ => _ end) (match ?x with _ => _ end) => destruct x
-  end.
-
 Section Lift.
 Variable dbg : bool.
 Variable hp1 hp2 hpo : list N -> result host.
